@@ -632,11 +632,15 @@ class CallMixin:
             if not isinstance(base.t, TObj):
                 raise Unsupported(f"modifies entry {mod}")
             saved = self.ctx[-1]
-            ft = self.field_type(base.t.cls, self.mangle(tree.attr))
+            an = self.mangle(tree.attr)
+            if tree.attr.startswith("__") and not tree.attr.endswith("__") and \
+                    self.field_type(base.t.cls, f"_{base.t.cls.lstrip('_')}{tree.attr}") is not None:
+                an = f"_{base.t.cls.lstrip('_')}{tree.attr}"      # private field of the receiver's own class
+            ft = self.field_type(base.t.cls, an)
             if ft is None:
                 raise Unsupported(f"modifies entry {mod}: unknown field")
             decl, ftype = ft
-            key = f"{decl}.{self.mangle(tree.attr)}"
+            key = f"{decl}.{an}"
             m = self.heap_map(post, key, sort_of(ftype))
             nv = fresh(ftype, tree.attr)
             nm = z3.Const(fresh_name("H!" + key), m.sort())
